@@ -27,6 +27,8 @@ LEAN_TARGETS = ['CpProofs.C12', 'drv_c12']
 DRIVER = 'drv_c12'
 THEOREMS = [
     'CpProofs.C12.deleteTable_covers_controls',
+    'CpProofs.C12.tables_as_modelled',
+    'CpProofs.C12.encode_total',
     'CpProofs.C12.C12_headermap_clean',
     'CpProofs.C12.C12_headermap_bytes_clean',
     'CpProofs.C12.C12_output_clean',
